@@ -26,6 +26,8 @@ Z4 = ((2, 6), (4, 6), (3, 6), (2, 6))                      # zero area, non-pali
 Z5 = ((6, 2), (8, 2), (8, 4), (8, 2), (6, 2))              # zero area spike, palindrome
 V2 = ((6, 2), (8, 2))                                      # two vertices, open
 V1 = ((5, 5),)
+S_OPEN = S[:-1]                                            # rings stored WITHOUT the repeated closing vertex
+H1_OPEN = H1[:-1]
 
 
 def rev(r):
@@ -47,6 +49,11 @@ def structures(thorough):
             if sh is TRI and (ha is H2 or hb is H2):
                 continue
             out.append((sh, ha, hb))
+    # rings without the closing vertex (only the vertex sequence / structure clauses apply to them)
+    out.append((S_OPEN,))
+    out.append((S_OPEN, H1_OPEN))
+    out.append((S, H1_OPEN))
+    out.append((S_OPEN, H1, H2))
     # degenerate shells
     for sh in (Z4, Z3, V2):
         out.append((sh,))
@@ -60,11 +67,17 @@ def directed(struct):
         yield tuple(rev(r) if b else r for r, b in zip(struct, bits))
 
 
+def is_closed(poly):
+    return all(len(r) < 3 or r[0] == r[-1] for r in poly)
+
+
 def is_valid_input(poly):
     """shell of non-zero area, every hole of non-zero area wound opposite to the shell (holes are
     inside and disjoint by construction)"""
     if len(poly) == 0:
         return True
+    if not is_closed(poly):
+        return False
     sa = O.signed_area2_ring(poly[0]) if len(poly[0]) >= 3 else 0
     if sa == 0:
         return False
@@ -165,7 +178,7 @@ def check_array(col, kind, st, T, elems, boxes, qpts, deep, pre=None):
                     continue
                 # direction: sign of the exact signed area of the lattice ring (as listed or reversed)
                 lr = lat_rings[ri]
-                a2 = O.signed_area2_ring(lr) if len(lr) >= 3 else 0
+                a2 = O.signed_area2_ring(lr) if (len(lr) >= 3 and lr[0] == lr[-1]) else 0    # direction only for closed rings
                 if a2 != 0:
                     col.count("nontrivial")
                     res_a2 = a2 if gpts == opts else -a2
@@ -272,6 +285,10 @@ def plan(ctx):
     units = []
     for kind in ("polygon", "multipolygon"):
         units.append((kind, "long", None))
+    fam_p = polygon_family(ctx.thorough)
+    for st in ("float64", "int64", "int32"):
+        for c in range(0, len(fam_p), 40):
+            units.append(("polygon", "far:" + st, fam_p[c:c + 40]))
     for st in L.SUBTYPES:
         w = wide_polygons(st)
         for c in range(0, len(w), 1200):
@@ -316,6 +333,13 @@ def run(ctx):
                 check_array(col, kind, st, T, el, boxes, qpts, deep=False)
                 check_array(col, kind, st, T, el[8:], boxes, qpts, deep=False, pre=el[:8])
                 check_array(col, kind, st, T, el[16:], boxes, qpts, deep=False, pre=el[:16])
+            return
+        if mode.startswith("far:"):
+            st = mode[4:]
+            for e in items:
+                # a long way from the origin (coordinate x coordinate products exceed 2^53) and very small rings
+                for T in ((1, 2 ** 30, -(2 ** 30)), (2, -(2 ** 30) + 1, 2 ** 29 + 3)) + (((2.0 ** -16, 1, -1),) if st == "float64" else ()):
+                    check_array(col, kind, st, T, [e], boxes, qpts, deep=False)
             return
         if mode.startswith("wide:"):
             check_array(col, kind, mode[5:], (1, 0, 0), list(items) + [None], boxes, qpts, deep=False)
